@@ -14,7 +14,7 @@ def check(case):
     sp, stochastic = case["spec"], case["stochastic"]
     flavour = "stochastic_export" if stochastic else "deterministic_export"
     with specmod.quiet():
-        M = specmod.to_model(sp)
+        M = specmod.to_model(sp, share_dicts=bool(case.get("share_dicts")))
     p1 = os.path.abspath(f"c12a_{os.getpid()}.xml")
     p2 = os.path.abspath(f"c12b_{os.getpid()}.xml")
     types = sorted({rx["type"] for rx in sp["reactions"]})
@@ -52,6 +52,25 @@ def check(case):
         diffs = modelcmp.compare(M, M2, case["states"], times=(0.0, 1.5), scheduled_times=tuple(sched))
     for sig, detail in diffs:
         res.fail(("roundtrip",) + tuple(sig) + (flavour,), **detail)
+    if not res.fails and case.get("rewrite"):
+        # the same model object written again after value-only changes (set_parameter / set_species): the second file
+        # must describe the model as it is now
+        res.label("written_again_after_value_changes")
+        pnames = sorted(M.get_parameter_dictionary())
+        with specmod.quiet():
+            for nm in pnames[:3]:
+                M.set_parameter(nm, float(M.get_parameter_dictionary()[nm]) * 1.5 + 0.125)
+            M.set_species({sp["species"][0]: float(M.get_species_dictionary()[sp["species"][0]]) + 3.0})
+            p3 = os.path.abspath(f"c12c_{os.getpid()}.xml")
+            try:
+                M.write_sbml_model(p3, stochastic_model=stochastic)
+                M3 = Model(sbml_filename=p3)
+            finally:
+                if os.path.exists(p3):
+                    os.remove(p3)
+            diffs = modelcmp.compare(M, M3, case["states"][:2], times=(0.0,), scheduled_times=tuple(sched))
+        for sig, detail in diffs:
+            res.fail(("roundtrip_after_value_change",) + tuple(sig) + (flavour,), **detail)
     for t in types:
         res.label("type:" + t)
     for rx in sp["reactions"]:
@@ -68,7 +87,7 @@ def check(case):
 @st.composite
 def cases(draw):
     sp = draw(gen.structural_models(time=True, step=True, delay_prob=3, max_rx=4))
-    from vf.props.c14 import tiny_rate_constants
+    from vf.props.c14 import tiny_rate_constants, shared_rate_constant
     tiny_rate_constants(draw, sp)
     species = sp["species"]
     # volume in a general rate now and then
@@ -94,7 +113,9 @@ def cases(draw):
             sp["rules"].append({"type": "assignment", "eq": f"{tgt} = {ref.show(tree)}", "freq": freq, "tree": tree, "dest": tgt})
     states = [{s: draw(st.one_of(st.integers(0, 9).map(float), gen.amount(9))) for s in sp["species"]}
               for _ in range(draw(st.integers(3, 6)))]
-    return {"kind": "roundtrip", "spec": sp, "stochastic": draw(st.booleans()), "states": states}
+    share = shared_rate_constant(draw, sp)
+    return {"kind": "roundtrip", "spec": sp, "stochastic": draw(st.booleans()), "states": states,
+            "rewrite": draw(st.integers(0, 2)) == 0, "share_dicts": share}
 
 
 def search(ctx):
